@@ -30,7 +30,7 @@ ASSUMPTIONS = [
     "noise lines are inserted inside sections (after their title), not before the first section and not inside ~Other, whose lines are content",
 ]
 REQUIRED = ["pairs_compared", "t_noise_header", "t_noise_data", "t_pad_lines", "t_crlf", "t_no_final_newline", "t_rewrap", "t_redelimit",
-            "t_pad_fields", "t_noise_burst", "rewrap_width_divides", "rewrap_width_not_divides", "corpus_pairs", "generated_pairs", "engine_normal_pairs", "redelimit_tab_runs", "redelimit_decimal_comma_data"]
+            "t_pad_fields", "t_noise_burst", "rewrap_width_divides", "rewrap_width_not_divides", "corpus_pairs", "generated_pairs", "engine_normal_pairs", "redelimit_tab_runs", "redelimit_decimal_comma_data", "pairs_read_by_path"]
 SOFT_DEADLINE = {"quick": 100, "thorough": 1500}
 LEVEL_TEXT = "Metamorphic exploration: equality of two observed reads under composed presentation-only transformations."
 LEVEL_NOTE = "Equality of two executions; trusts the transformations to be presentation-only (they act on whitespace, line ends, comment lines, wrapping and the declared delimiter only)."
@@ -80,10 +80,25 @@ LITERAL_PAIRS = [   # witnesses of known findings and documented tolerances: alw
 ]
 
 
+# files read BY PATH (lasio's own encoding detection in the way): a UTF-8 header with non-ASCII text, and comment / blank lines that move
+# the first non-ASCII character relative to the bytes lasio samples (4000)
+_NA_HEAD = LIT_HEAD.replace("A.U : a", "A.µs/m : température Ågård")
+BY_PATH_PAIRS = [
+    (_NA_HEAD + LIT_TAIL, _NA_HEAD.replace("~Well\n", "".join("# comment line %03d %s\n" % (i, "." * 40) for i in range(n)) + "~Well\n") + LIT_TAIL, ["noise_header"])
+    for n in (20, 60, 66, 90, 200)
+] + [
+    (_NA_HEAD + LIT_TAIL, _NA_HEAD.replace("~Curves\n", "\n" * n + "~Curves\n") + LIT_TAIL, ["noise_header"]) for n in (3900, 4200)
+] + [
+    (_NA_HEAD + LIT_TAIL, _NA_HEAD.replace("STRT.M 1.0 : s", "STRT.M" + " " * n + "1.0 : s") + LIT_TAIL, ["pad_fields"]) for n in (3990, 4100)
+]
+
+
 def grid(tier):
     k = 0
     for i in range(len(LITERAL_PAIRS)):
         yield {"base": "literal", "seed": i, "ts": LITERAL_PAIRS[i][2], "literal": i}
+    for i in range(len(BY_PATH_PAIRS)):
+        yield {"base": "literal", "seed": 500 + i, "ts": BY_PATH_PAIRS[i][2], "by_path": i}
     for t in TRANSFORMS:
         for rep in range(6 if tier == "quick" else 40):
             for wrap in (False, True):
@@ -250,7 +265,21 @@ def run_case(case, ctx):
     rng = random.Random(case["seed"])
     ts = list(case["ts"])
     excl_dlm = False
-    if case["base"] == "literal":
+    literal_label = None
+    paths = None
+    if case["base"] == "literal" and "by_path" in case:
+        base, text, applied = BY_PATH_PAIRS[case["by_path"]]
+        applied = list(applied)
+        kind = "generated"
+        os.makedirs(ctx.scratch, exist_ok=True)
+        paths = []
+        for tag, content in (("base", base), ("transformed", text)):
+            pth = os.path.join(ctx.scratch, "c09-%d-%s.las" % (case["by_path"], tag))
+            with open(pth, "w", encoding="utf-8", newline="") as fh:
+                fh.write(content)
+            paths.append(pth)
+        ctx.count("pairs_read_by_path")
+    elif case["base"] == "literal":
         base, text, applied = LITERAL_PAIRS[case["literal"]][:3]
         literal_label = (LITERAL_PAIRS[case["literal"]] + (None,))[3]
         applied = list(applied)
@@ -349,14 +378,14 @@ def run_case(case, ctx):
         return
     for engine in ("numpy", "normal"):
         try:
-            b = lasio.read(base, engine=engine, mnemonic_case="preserve")
+            b = lasio.read(paths[0] if paths else base, engine=engine, mnemonic_case="preserve")
         except Exception:
             ctx.count("base_unreadable")
             return
         detail = {"base": case["base"], "transformations": applied, "engine": engine, "text": text[:4000] if kind == "generated" else None,
                   "base_text": base[:3000] if kind == "generated" else None}
         try:
-            t = lasio.read(text, engine=engine, mnemonic_case="preserve")
+            t = lasio.read(paths[1] if paths else text, engine=engine, mnemonic_case="preserve")
         except Exception as e:
             ctx.violation("transformed-read-raised:%s:%s" % (type(e).__name__, "+".join(sorted(applied))),
                           "the transformed text cannot be read (engine=%s): %r" % (engine, e), detail)
